@@ -67,6 +67,7 @@ abbrev RR := R Host Markup.ParserState
 
 structure HR where
   r : RR
+  alt : Bool := false      -- this runner was created with the other version of the last reader (operation newalt)
   waitingN : Nat := 0
   ends : Nat := 0
 
@@ -100,8 +101,24 @@ structure St where
 /-- a string variable has grown past 500 characters: both sides stop stepping such a runner -/
 def tooBig (s : Store) : Bool := s.any (fun kv => match kv.2 with | .str t => t.length > 500 | _ => false)
 
+/-- the other version of the last reader: its nodes (index ≥ k) greet with ENTER instead of enter -/
+def altProgram (k : Nat) (p : Program) : Program :=
+  p.mapIdx fun i n =>
+    if i < k then n else
+    { n with body := n.body.map fun st =>
+        match st with
+        | .line l =>
+          (match l.elems with
+           | [.inl t] => if t.startsWith "enter " then .line { l with elems := [.inl ("ENTER " ++ (t.drop 6).toString)] } else st
+           | _ => st)
+        | _ => st }
+
 def runCase (c : S) : List String := Id.run do
-  let prog := match c.find "prog" with | some p => program p | none => []
+  let prog0 := match c.find "prog" with | some p => program p | none => []
+  let progAlt := match c.find "altfrom" with
+    | some a => altProgram ((a.args.headD (.atom "0")).toNat) prog0
+    | none => prog0
+  let prog := prog0
   let seedStr := match c.find "seed" with | some s => (s.args.headD (.atom "")).str | none => "seed"
   let vars : Store := ((c.find "vars").map S.args |>.getD []).foldl (fun m kv =>
     match kv with
@@ -129,6 +146,13 @@ def runCase (c : S) : List String := Id.run do
       match op.head with
       | "new" =>
         st := { st with runners := update st.runners j { r := r0 }, out := st.out.push "NEW" }
+      | "newalt" =>
+        match Rng.seedToInt64 seedStr with
+        | none => st := { st with out := st.out.push "NEWERR" }
+        | some sd =>
+          match (R.init progAlt vars { host := {}, rng := Rng.seed sd } {} : Option RR) with
+          | none => st := { st with out := st.out.push "NEWERR" }
+          | some ra => st := { st with runners := update st.runners j { r := ra, alt := true }, out := st.out.push "NEW" }
       | "next" =>
         match lookup st.runners j with
         | none => st := { st with out := st.out.push "NORUNNER" }
@@ -138,11 +162,11 @@ def runCase (c : S) : List String := Id.run do
           else
           let cRaw := (a.getD 1 (.atom "0")).toNat
           let choice := if hr.waitingN > 0 then cRaw % hr.waitingN else cRaw
-          let (r', res) := hr.r.next env mk prog fuel choice
+          let (r', res) := hr.r.next env mk (if hr.alt then progAlt else prog) fuel choice
           let wn := match res with | .out (.ok (.options _ os)) => os.length | _ => 0
           let ends := match res with | .out (.ok .ended) => hr.ends + 1 | _ => 0
           let (s, r'') := stateStr r'
-          st := { st with runners := update st.runners j { r := r'', waitingN := wn, ends := ends }, out := st.out.push (showOut res ++ s) }
+          st := { st with runners := update st.runners j { hr with r := r'', waitingN := wn, ends := ends }, out := st.out.push (showOut res ++ s) }
       | "snap" =>
         match lookup st.runners j with
         | none => st := { st with out := st.out.push "NORUNNER" }
@@ -163,10 +187,10 @@ def runCase (c : S) : List String := Id.run do
         let k := (a.getD 1 (.atom "0")).toNat
         match lookup st.runners j, st.snaps[k]? with
         | some hr, some s =>
-          match hr.r.restore prog s with
+          match hr.r.restore (if hr.alt then progAlt else prog) s with
           | some r' =>
             let (str, r'') := stateStr r'
-            st := { st with runners := update st.runners j { r := r'' }, out := st.out.push ("RESTORE OK" ++ str) }
+            st := { st with runners := update st.runners j { r := r'', alt := hr.alt }, out := st.out.push ("RESTORE OK" ++ str) }
           | none =>
             let (str, r'') := stateStr hr.r
             st := { st with runners := update st.runners j { hr with r := r'' }, out := st.out.push ("RESTORE ERR" ++ str) }
@@ -176,10 +200,10 @@ def runCase (c : S) : List String := Id.run do
         | none => st := { st with out := st.out.push "NORUNNER" }
         | some hr =>
           let s : Snapshot := ⟨[("zz", .num (F64.ofInt 1))], [("zz", 3)], (a.getD 1 (.atom "")).str⟩
-          match hr.r.restore prog s with
+          match hr.r.restore (if hr.alt then progAlt else prog) s with
           | some r' =>
             let (str, r'') := stateStr r'
-            st := { st with runners := update st.runners j { r := r'' }, out := st.out.push ("RESTORE OK" ++ str) }
+            st := { st with runners := update st.runners j { r := r'', alt := hr.alt }, out := st.out.push ("RESTORE OK" ++ str) }
           | none =>
             let (str, r'') := stateStr hr.r
             st := { st with runners := update st.runners j { hr with r := r'' }, out := st.out.push ("RESTORE ERR" ++ str) }
@@ -188,10 +212,10 @@ def runCase (c : S) : List String := Id.run do
         | none => st := { st with out := st.out.push "NORUNNER" }
         | some hr =>
           let s : Snapshot := ⟨[], [], (a.getD 1 (.atom "")).str⟩
-          match hr.r.restore prog s with
+          match hr.r.restore (if hr.alt then progAlt else prog) s with
           | some r' =>
             let (str, r'') := stateStr r'
-            st := { st with runners := update st.runners j { r := r'' }, out := st.out.push ("RESTORE OK" ++ str) }
+            st := { st with runners := update st.runners j { r := r'', alt := hr.alt }, out := st.out.push ("RESTORE OK" ++ str) }
           | none =>
             let (str, r'') := stateStr hr.r
             st := { st with runners := update st.runners j { hr with r := r'' }, out := st.out.push ("RESTORE ERR" ++ str) }
